@@ -170,6 +170,10 @@ def _apply_impl(m, op):
     if k == "recalc":
         mx.set_recalc(op["v"])
         return None
+    if k == "py":       # free-form statement(s) with the model bound to m (catalogues of invalid operations)
+        env = {"m": m, "mx": mx}
+        exec(op["code"], env)
+        return env.get("result")
     raise ValueError("unknown op %r" % (op,))
 
 
@@ -454,6 +458,8 @@ def op_to_python(op):
         return "%s.clear_items()" % sp
     if k == "recalc":
         return "mx.set_recalc(%r)" % op["v"]
+    if k == "py":
+        return op["code"]
     return "# %s" % json.dumps(op)
 
 
